@@ -165,8 +165,8 @@ PROPS = {
     },
     "C06": {
         "title": "Promises survive crashes: persist-before-send, one vote per term",
-        "modules": ["top", "prelude", "pb", "inflights", "progress", "quorum", "tracker", "log_unstable", "storage_trait", "raft_log", "raft"],
-        "body": {"S": ["raft"]},
+        "modules": ["top", "prelude", "pb", "inflights", "progress", "quorum", "tracker", "log_unstable", "storage_trait", "raft_log", "raft", "raw_node"],
+        "body": {"S": ["raft", "raw_node"]},
         "modes": ["S"],
         "claim": "PARTIAL (per-call: term monotone, one vote per term, restart state; the release discipline of Ready is added with the raw_node unit)",
         "decided": [
@@ -174,6 +174,7 @@ PROPS = {
             "reset/become_follower/become_candidate/become_pre_candidate: vote is cleared only together with a term change; a candidate votes for itself in the new term; a pre-candidate keeps term and vote",
             "load_state installs exactly the stored (term, vote, commit) and aborts on a commit outside [committed, last]",
             "RaftCore::send only fills from/term/priority and pushes exactly one message",
+            "release discipline of ready(): a non-leader's messages are all persisted_messages(); messages released for immediate sending (leader) are never released in a Ready that also carries a term or vote change (finding F1, fixed in /repo)",
         ],
         "undecided": [
             "'never behind anything it has told another node' across a crash: a statement about the application's write/fsync/send order",
@@ -195,5 +196,28 @@ PROPS = {
         ],
         "undecided": ["non-disruption of a lock-step majority over all schedules of the minority (second sentence)"],
         "assumptions": ["mode S", "assumed handler contract step_frame"],
+    },
+    "C07": {
+        "title": "Ready contract: exact, ordered, persisted-only hand-off of entries",
+        "modules": ["top", "prelude", "pb", "inflights", "progress", "quorum", "tracker", "log_unstable", "storage_trait", "raft_log", "raft", "raw_node"],
+        "body": {"P": ["log_unstable", "raft_log"], "S": ["log_unstable", "raft_log", "raw_node"]},
+        "modes": ["P", "S"],
+        "claim": "PARTIAL (every per-call clause of ready/has_ready/gen_light_ready; the lifetime 'exactly once' statement is not lifted from them)",
+        "decided": [
+            "has_ready() is true exactly when ready() would return something: both equal the same spec function of the node state",
+            "ready(): entries = the whole unstable suffix; hs = Some(current (term, vote, commit)) iff it differs from the last one handed out; "
+            "must_sync whenever entries, a snapshot, or a term/vote change are included; with a pending snapshot no committed entries are handed "
+            "out and commit_since_index jumps to the snapshot index; a record (number, last entry, snapshot) is pushed",
+            "gen_light_ready(): committed entries = limit_prefix(log[max(since+1, first) ..= min(committed, persisted + limit)], max_committed_size_per_ready): "
+            "contiguous, starting right after commit_since_index (given first <= since+1), never beyond min(committed, persisted + max_apply_unpersisted_log_limit); "
+            "commit_since_index advances to the last handed index; messages are moved out exactly once",
+            "RaftLog::next_entries_since / has_next_entries_since / applied_index_upper_bound equal the model (C14)",
+        ],
+        "undecided": [
+            "'over a node's lifetime exactly its committed log, no gap or duplicate' as a history statement (the per-call clauses chain, the induction is not mechanised)",
+            "commit_ready / on_persist_ready / advance_append are not under contract in this revision",
+            "the two asserts inside the records.drain(..) loop at the follower->leader edge (R10 cut)",
+        ],
+        "assumptions": ["raw_node.rs functions are verified in mode S", "payload-size sums fit in usize"],
     },
 }
